@@ -51,6 +51,18 @@ def handle : Handler
       let c := chunkedDecision p11 hasCl isHead code
       some (outBool c ++ "|" ++ hex (bodyWire c pieces))
     | _, _, _, _, _ => some badArgs
+  | "env.fold", [hs] =>
+    let parsed : Option (List (Str × Str)) :=
+      if hs == "[]" then some [] else
+      (hs.splitOn ",").mapM fun p =>
+        match p.splitOn ":" with
+        | [k, v] => match unhexStr k, unhexStr v with
+          | some k, some v => some (k, v)
+          | _, _ => none
+        | _ => none
+    match parsed with
+    | some hs => some (outList (fun (k, v) => hexStr k ++ ":" ++ hexStr v) (foldHeaders hs))
+    | none => some badArgs
   | "resp.body", [chunked, pieces] =>
     match boolArg chunked, bytesList pieces with
     | some chunked, some pieces => some (hex (bodyWire chunked pieces))
